@@ -295,7 +295,7 @@ func newExec(P *Program, h *HarnessSpec, opts RunOpts) (*Exec, error) {
 	ex.started = time.Now()
 	ex.wallBudget = 15 * time.Minute
 	if opts.Tier > 0 {
-		ex.wallBudget = 90 * time.Minute
+		ex.wallBudget = 45 * time.Minute
 	}
 	if h.Wall > 0 {
 		ex.wallBudget = time.Duration(h.Wall) * time.Second
